@@ -2,7 +2,7 @@
 //! exact; the canonical form lower-cases exactly the RFC 4034 §6.2 /
 //! RFC 6840 §5.1 names.
 //!
-//! Three exhaustive enumerations (engine: `gramx`):
+//! Four exhaustive enumerations (engine: `gramx`):
 //!
 //! 1. VALUES: for every record type the full product of per-field boundary
 //!    menus (generator: `mc::rgen`), each value carrying an independent
@@ -13,6 +13,13 @@
 //!    field-byte grammar (every internal length field short / exact /
 //!    long, names literal / compressed / upper-case / truncated / bad
 //!    pointer, trailing garbage), placed into a message.
+//!
+//! 4. LAYOUTS: hand-written messages (independent writer) in which the
+//!    owner and every embedded name of every name-bearing type take each of
+//!    8 shapes (flat; labels+pointer; bare pointer; pointer to a compressed
+//!    name; labels+pointer to a compressed name; pointer chains of 2 and 3);
+//!    the parsed record must compose / canonicalise / measure / flatten /
+//!    compare like the record parsed from the decompressed reference.
 //!
 //! Oracle per value v: compose_rdata(v) == reference; rdlen == octets
 //! written; parse(compose(v)) == v (stand-alone parser and through whole
@@ -1615,6 +1622,281 @@ fn run_grammar(env: &Env, rtype: u16, fields: &[F], lc: &mut Local) -> u64 {
     n
 }
 
+
+//------------ hand-built name layouts ------------------------------------------------
+
+/// Shapes an embedded (or owner) name can take inside a message. The
+/// library's own compressors only ever write "labels, then one pointer to a
+/// flat tail"; a peer may write any of these.
+const NAME_SHAPES: &[&str] = &[
+    "flat",
+    "labels+ptr>flat",
+    "ptr>flat",
+    "ptr>(labels+ptr>flat)",
+    "labels+ptr>(labels+ptr>flat)",
+    "ptr>(labels+ptr>(labels+ptr>flat))",
+    "ptr>ptr>(labels+ptr>(labels+ptr>flat))",
+    "ptr>ptr>flat",
+];
+
+/// Message prefix written by hand: header (QD=1, AN=5), question "b. A IN"
+/// at 12, and four NS records whose RDATA provide the landmarks
+///   L1: 3 "Web" ptr(12)            = Web.b.
+///   L2: 1 "x"   ptr(L1)            = x.Web.b.
+///   L3: ptr(L2)                    (bare pointer)
+///   L4: ptr(12)                    (bare pointer)
+/// Returns (octets, [L1, L2, L3, L4]).
+fn layout_prefix() -> (Vec<u8>, [usize; 4]) {
+    let mut m = vec![0x43, 0x21, 0x84, 0, 0, 1, 0, 5, 0, 0, 0, 0];
+    m.extend_from_slice(&[1, b'b', 0, 0, 1, 0, 1]);
+    let mut marks = [0usize; 4];
+    let ptr = |t: usize| [0xC0 | (t >> 8) as u8, t as u8];
+    for k in 0..4 {
+        m.extend_from_slice(&ptr(QNAME_POS));
+        m.extend_from_slice(&[0, 2, 0, 1, 0, 0, 0, 60]);
+        let rd: Vec<u8> = match k {
+            0 => cat(&[&[3, b'W', b'e', b'b'], &ptr(QNAME_POS)]),
+            1 => cat(&[&[1, b'x'], &ptr(marks[0])]),
+            2 => ptr(marks[1]).to_vec(),
+            _ => ptr(QNAME_POS).to_vec(),
+        };
+        m.extend_from_slice(&(rd.len() as u16).to_be_bytes());
+        marks[k] = m.len();
+        m.extend_from_slice(&rd);
+    }
+    (m, marks)
+}
+
+/// (octets as written in the message, labels of the name) for a shape.
+fn shaped_name(shape: usize, marks: &[usize; 4]) -> (Vec<u8>, Vec<Vec<u8>>) {
+    let ptr = |t: usize| vec![0xC0 | (t >> 8) as u8, t as u8];
+    let l = |s: &[&[u8]]| s.iter().map(|x| x.to_vec()).collect::<Vec<_>>();
+    match shape {
+        0 => (vec![2, b'F', b'l', 0], l(&[b"Fl"])),
+        1 => (cat(&[&[1, b'A'], &ptr(QNAME_POS)]), l(&[b"A", b"b"])),
+        2 => (ptr(QNAME_POS), l(&[b"b"])),
+        3 => (ptr(marks[0]), l(&[b"Web", b"b"])),
+        4 => (cat(&[&[1, b'Y'], &ptr(marks[0])]), l(&[b"Y", b"Web", b"b"])),
+        5 => (ptr(marks[1]), l(&[b"x", b"Web", b"b"])),
+        6 => (ptr(marks[2]), l(&[b"x", b"Web", b"b"])),
+        _ => (ptr(marks[3]), l(&[b"b"])),
+    }
+}
+
+/// RDATA templates of every name-bearing type: `None` is a name slot.
+fn layout_templates() -> Vec<(u16, Vec<Option<Vec<u8>>>)> {
+    let b = |x: &[u8]| Some(x.to_vec());
+    let mut t: Vec<(u16, Vec<Option<Vec<u8>>>)> = Vec::new();
+    for rt in [2u16, 3, 4, 5, 7, 8, 9, 12, 39] {
+        t.push((rt, vec![None]));
+    }
+    t.push((15, vec![b(&[0, 10]), None]));
+    t.push((6, vec![None, None, b(&[0, 0, 0, 1, 0, 0, 0, 2, 0, 0, 0, 3, 0, 0, 0, 4, 0, 0, 0, 5])]));
+    t.push((14, vec![None, None]));
+    t.push((17, vec![None, None]));
+    t.push((33, vec![b(&[0, 1, 0, 2, 0, 80]), None]));
+    t.push((35, vec![b(&[0, 1, 0, 2, 1, b'U', 3, b's', b'i', b'p', 0]), None]));
+    t.push((46, vec![b(&[0, 1, 8, 2, 0, 0, 14, 16, 0, 0, 0, 2, 0, 0, 0, 1, 0x12, 0x34]), None, b(&[9, 8, 7])]));
+    t.push((47, vec![None, b(&[0, 1, 0x40])]));
+    t.push((64, vec![b(&[0, 1]), None, b(&[0, 1, 0, 3, 2, b'h', b'2'])]));
+    t.push((65, vec![b(&[0, 0]), None]));
+    t.push((45, vec![b(&[10, 3, 2]), None, b(&[1, 2])]));
+    t.push((250, vec![None, b(&[0, 0, 0, 0, 0, 1, 1, 44, 0, 2, 7, 7, 0x12, 0x34, 0, 0, 0, 0])]));
+    t
+}
+
+struct LayoutObs {
+    composed: Vec<u8>,
+    canonical: Vec<u8>,
+    rdlen: Option<u16>,
+    eq_ref: Result<(bool, bool), String>,
+    flat_composed: Vec<u8>,
+    flat_eq: bool,
+    owner: Vec<u8>,
+}
+
+/// One hand-built message: the record under test is the last answer; its
+/// owner and every embedded name take the given shapes.
+///
+/// `core`: the message isolates one name shape (NS target or A owner); a
+/// failure is then a property of the parsed-name machinery shared by all
+/// types and is reported per shape, not per type. Returns false on failure.
+fn check_layout(env: &Env, rtype: u16, tmpl: &[Option<Vec<u8>>], owner_shape: usize, shapes: &[usize], core: bool, lc: &mut Local) -> bool {
+    let t = if core {
+        format!("name-layout-core|shape={}", NAME_SHAPES[shapes.first().cloned().unwrap_or(owner_shape)])
+    } else {
+        rtype_label(rtype)
+    };
+    let (mut msg, marks) = layout_prefix();
+    // independent writer: record under test
+    let (owner_wire, owner_labels) = shaped_name(owner_shape, &marks);
+    msg.extend_from_slice(&owner_wire);
+    msg.extend_from_slice(&rtype.to_be_bytes());
+    msg.extend_from_slice(&[0, 1, 0, 0, 14, 16]);
+    let mut rd = Vec::new();
+    let mut reference = Vec::new();
+    let mut spans = Vec::new();
+    let mut k = 0;
+    for part in tmpl {
+        match part {
+            Some(b) => {
+                rd.extend_from_slice(b);
+                reference.extend_from_slice(b);
+            }
+            None => {
+                let (wire, labels) = shaped_name(shapes[k], &marks);
+                k += 1;
+                rd.extend_from_slice(&wire);
+                let flat = w::to_wire(&labels);
+                spans.push((reference.len(), flat.len()));
+                reference.extend_from_slice(&flat);
+            }
+        }
+    }
+    msg.extend_from_slice(&(rd.len() as u16).to_be_bytes());
+    msg.extend_from_slice(&rd);
+    let shape_txt = format!("owner={} names=[{}]", NAME_SHAPES[owner_shape], shapes.iter().map(|s| NAME_SHAPES[*s]).collect::<Vec<_>>().join(", "));
+    let case = || json!({"kind": "layout", "rtype": rtype, "owner_shape": owner_shape, "shapes": shapes, "message": hex(&msg), "reference_rdata": hex(&reference), "shapes_text": shape_txt, "core": core});
+    lc.ev();
+    lc.inc(format!("LAYOUT-{t}:cases"));
+    // the layout itself must be a valid message for the independent reader
+    match w::read_message(&msg) {
+        Ok(raw) if raw.end == msg.len() && raw.sections[0].len() == 5 && raw.sections[0][4].owner == owner_labels => {}
+        other => {
+            env.viol("C05|name-layout|harness-layout-invalid".into(), format!("{shape_txt}: {:?}", other.map(|r| r.end)), case());
+            return false;
+        }
+    }
+    let expect_canon = if CANONICAL_LOWERCASE.contains(&rtype) { lowercase_names(&reference, &spans) } else { reference.clone() };
+    let obs = guard(|| -> Result<LayoutObs, String> {
+        let m = Message::from_octets(msg.as_slice()).map_err(|e| format!("from_octets: {e}"))?;
+        let last = m.answer().map_err(|e| format!("answer: {e}"))?.last().ok_or("no record")?.map_err(|e| format!("record: {e}"))?;
+        let rec = last.to_any_record::<PRd>().map_err(|e| format!("REJECTED: {e}"))?;
+        let p = rec.data();
+        let mut composed = Vec::new();
+        p.compose_rdata(&mut composed).map_err(|_| "append")?;
+        let mut canonical = Vec::new();
+        p.compose_canonical_rdata(&mut canonical).map_err(|_| "append")?;
+        let rdlen = p.rdlen(false);
+        let mut parser = Parser::from_ref(reference.as_slice());
+        let eq_ref = match PRd::parse_any_rdata(Rtype::from_int(rtype), &mut parser) {
+            Ok(pr) => Ok((p == &pr, &pr == p)),
+            Err(e) => Err(e.to_string()),
+        };
+        use domain::base::name::{FlattenInto, ToName};
+        let flat: Rd = p.clone().try_flatten_into().map_err(|_: std::convert::Infallible| String::new())?;
+        let mut flat_composed = Vec::new();
+        flat.compose_rdata(&mut flat_composed).map_err(|_| "append")?;
+        let flat_eq = &flat == p && p == &flat;
+        let owner: Name<Vec<u8>> = rec.owner().to_name();
+        Ok(LayoutObs { composed, canonical, rdlen, eq_ref, flat_composed, flat_eq, owner: owner.as_slice().to_vec() })
+    });
+    let o = match obs {
+        Err(e) => {
+            env.viol(format!("C05|{t}|name-layout|panic|{}", panic_class(&e)), format!("{shape_txt}: {e}"), case());
+            return false;
+        }
+        Ok(Err(e)) if e.starts_with("REJECTED") => {
+            lc.inc(format!("LAYOUT-{t}:rejected"));
+            // RFC 3597 §4: receivers MUST decompress names in the RFC 1035 types
+            if MAY_COMPRESS.contains(&rtype) {
+                env.viol(format!("C05|{t}|name-layout|parse|valid-compressed-names-rejected"), format!("{shape_txt}: {e}"), case());
+                return false;
+            }
+            return true;
+        }
+        Ok(Err(e)) => {
+            env.viol(format!("C05|{t}|name-layout|read|{}", err_class(&e)), format!("{shape_txt}: {e}"), case());
+            return false;
+        }
+        Ok(Ok(o)) => o,
+    };
+    lc.inc(format!("LAYOUT-{t}:accepted"));
+    let fail = |check: &str, what: String| {
+        env.viol(format!("C05|{t}|name-layout|{check}"), format!("type {}: {shape_txt}: {what}", rtype_label(rtype)), case());
+    };
+    let mut ok = true;
+    if o.composed != reference {
+        fail("compose_rdata|differs-from-decompressed-reference", first_diff(&o.composed, &reference));
+        ok = false;
+    }
+    if o.canonical != expect_canon {
+        fail("compose_canonical_rdata|differs-from-decompressed-reference", first_diff(&o.canonical, &expect_canon));
+        ok = false;
+    }
+    if let Some(n) = o.rdlen {
+        if n as usize != reference.len() {
+            fail("rdlen(false)|!=uncompressed-length", format!("rdlen {n}, uncompressed RDATA has {} octets", reference.len()));
+            ok = false;
+        }
+    }
+    match &o.eq_ref {
+        Ok((true, true)) => {}
+        Ok(x) => {
+            fail("eq|parsed-from-message!=parsed-from-uncompressed-reference", format!("{x:?}"));
+            ok = false;
+        }
+        Err(e) => {
+            fail("reference-rdata-rejected", e.clone());
+            ok = false;
+        }
+    }
+    if o.flat_composed != reference || !o.flat_eq {
+        fail("flatten(to_name)|differs-from-decompressed-reference", format!("eq={} {}", o.flat_eq, if o.flat_composed != reference { first_diff(&o.flat_composed, &reference) } else { String::new() }));
+        ok = false;
+    }
+    if o.owner != w::to_wire(&owner_labels) {
+        fail("owner.to_name|differs-from-decompressed-owner", first_diff(&o.owner, &w::to_wire(&owner_labels)));
+        ok = false;
+    }
+    if ok {
+        lc.inc(format!("LAYOUT-{t}:roundtripped"));
+        let mut key = vec![0xFC, owner_shape as u8];
+        key.extend_from_slice(&rtype.to_be_bytes());
+        key.extend_from_slice(&rd);
+        lc.distinct.push(fnv(&key));
+    }
+    ok
+}
+
+/// First the core: every shape alone as NS target and as owner of an A
+/// record. Shapes that fail there taint every message containing them
+/// (reported once per shape, the per-type messages are skipped). Then every
+/// template x every shape of every name slot (owner flat), plus every owner
+/// shape with all names in the same shape.
+fn run_layouts(env: &Env, lc: &mut Local) -> u64 {
+    let mut n = 0;
+    let ns = NAME_SHAPES.len();
+    let mut bad = vec![false; ns];
+    for sh in 0..ns {
+        let a = check_layout(env, 2, &[None], 0, &[sh], true, lc);
+        let b = check_layout(env, 1, &[Some(vec![192, 0, 2, 1])], sh, &[], true, lc);
+        bad[sh] = !(a && b);
+        n += 2;
+    }
+    for (rtype, tmpl) in layout_templates() {
+        let t = rtype_label(rtype);
+        let slots = tmpl.iter().filter(|p| p.is_none()).count();
+        product(&vec![ns; slots], |idx| {
+            n += 1;
+            if idx.iter().any(|s| bad[*s]) {
+                lc.inc(format!("LAYOUT-{t}:skipped-shape-failed-in-core"));
+                return;
+            }
+            check_layout(env, rtype, &tmpl, 0, idx, false, lc);
+        });
+        for os in 1..ns {
+            n += 1;
+            if bad[os] {
+                lc.inc(format!("LAYOUT-{t}:skipped-shape-failed-in-core"));
+                continue;
+            }
+            check_layout(env, rtype, &tmpl, os, &vec![os; slots], false, lc);
+        }
+    }
+    n
+}
+
 //------------ main ------------------------------------------------------------------
 
 fn tier_from(s: &str) -> Tier {
@@ -1645,6 +1927,13 @@ fn replay(env: &Env, path: &str) {
                     handle_event(&env2, ev, &mut lc);
                 });
             }
+        }
+        Some("layout") => {
+            let rtype = case["rtype"].as_u64().unwrap_or(0) as u16;
+            let shapes: Vec<usize> = case["shapes"].as_array().map(|a| a.iter().map(|x| x.as_u64().unwrap_or(0) as usize).collect()).unwrap_or_default();
+            let os = case["owner_shape"].as_u64().unwrap_or(0) as usize;
+            let tmpl = if rtype == 1 { vec![Some(vec![192, 0, 2, 1])] } else { layout_templates().into_iter().find(|t| t.0 == rtype).map(|t| t.1).unwrap_or_default() };
+            check_layout(env, rtype, &tmpl, os, &shapes, case["core"].as_bool().unwrap_or(false), &mut lc);
         }
         Some("bytes") => {
             let rtype = case["rtype"].as_u64().unwrap_or(0) as u16;
@@ -1763,6 +2052,23 @@ fn main() {
     }).collect();
     flush(&ctx, vbufs);
 
+    // 4. hand-built name layouts
+    let layout_cases;
+    {
+        let mut lc = Local::default();
+        wd.enter(|| json!({"type": "LAYOUTS"}));
+        layout_cases = run_layouts(&env, &mut lc);
+        wd.leave();
+        let mut m = merged.lock().unwrap();
+        for (k, v) in lc.c {
+            *m.c.entry(k).or_insert(0) += v;
+        }
+        m.evals += lc.evals;
+        env.stats.distinct_many(lc.distinct);
+        drop(m);
+        flush(&ctx, vec![take_vbuf()]);
+    }
+
     // report
     let m = merged.into_inner().unwrap();
     let mut per_type: BTreeMap<String, BTreeMap<String, u64>> = BTreeMap::new();
@@ -1774,7 +2080,7 @@ fn main() {
         per_type.entry(t.to_string()).or_default().insert("candidates".into(), n);
     }
     let sum = |suffix: &str| -> u64 {
-        m.c.iter().filter(|(k, _)| k.ends_with(suffix) && !k.starts_with("BYTES-") && !k.starts_with("OPTION-") && !k.starts_with("OPTBYTES-")).map(|(_, v)| *v).sum()
+        m.c.iter().filter(|(k, _)| k.ends_with(suffix) && !k.starts_with("BYTES-") && !k.starts_with("OPTION-") && !k.starts_with("OPTBYTES-") && !k.starts_with("LAYOUT-")).map(|(_, v)| *v).sum()
     };
     let sum_in = |prefix: &str, suffix: &str| -> u64 { m.c.iter().filter(|(k, _)| k.ends_with(suffix) && k.starts_with(prefix)).map(|(_, v)| *v).sum() };
     println!("{:<12} {:>9} {:>9} {:>9} {:>12} {:>9}", "type", "cand", "generated", "refused", "roundtripped", "msg-rt");
@@ -1786,13 +2092,18 @@ fn main() {
         json!({
             "evaluations": m.evals,
             "distinct_nontrivial": env.stats.distinct_count(),
-            "rule": "distinct (type, reference RDATA) of non-empty values that completed the stand-alone round trip, plus distinct option encodings that round-tripped, plus distinct (type, RDATA octets) of grammar strings the parser accepted and that round-tripped; hashed with FNV-1a over type and octets",
+            "rule": "distinct (type, reference RDATA) of non-empty values that completed the stand-alone round trip, plus distinct option encodings that round-tripped, plus distinct (type, RDATA octets) of grammar strings the parser accepted and that round-tripped, plus distinct parsed option (code, data) and distinct hand-built layout messages (owner shape, type, RDATA) that passed every check; hashed with FNV-1a over type and octets",
             "exhaustive": true,
             "tier_menus": tier_name(tier),
             "values_generated": sum(":generated"),
             "values_refused_by_constructor": sum(":refused"),
             "values_roundtripped": sum(":roundtripped"),
             "message_roundtrips": sum(":message-roundtrips"),
+            "name_layout_messages": layout_cases,
+            "name_layout_accepted": sum_in("LAYOUT-", ":accepted"),
+            "name_layout_rejected": sum_in("LAYOUT-", ":rejected"),
+            "name_layout_roundtripped": sum_in("LAYOUT-", ":roundtripped"),
+            "name_layout_shapes": NAME_SHAPES,
             "byte_grammar_cases": byte_cases.load(std::sync::atomic::Ordering::Relaxed),
             "byte_grammar_accepted": sum_in("BYTES-", ":accepted"),
             "byte_grammar_rejected": sum_in("BYTES-", ":rejected"),
